@@ -760,7 +760,16 @@ const (
 	SAssert
 	SIOManip
 	SChoose
+	SIterate
 )
+
+// IterRound is one `(length: L, advance: A, unroll: U) { body }` of an iterate statement.
+type IterRound struct {
+	Length, Advance, Unroll int
+	Body                    []*Stmt
+	BodyEnd                 int
+	BodyTerm                bool
+}
 
 type AssertInfo struct {
 	Keyword string // assert / pre / inv / post
@@ -809,6 +818,10 @@ type Stmt struct {
 	IO      *Expr
 	Arg1    *Expr
 	HistPos *Expr
+	// SIterate
+	IterVars []*Expr // the local slice variables
+	IterSrcs []*Expr
+	Rounds   []*IterRound
 	// SChoose
 	ChooseName string
 	ChooseAlts []string
@@ -927,13 +940,46 @@ func (lw *lowerer) stmt(n *a.Node) *Stmt {
 		markStmtPos(s.Arg1)
 		markStmtPos(s.HistPos)
 		s.Body = lw.block(m.Body())
-		if s.IOKw != "io_forget_history" {
-			cl, ok := lw.p.closer[s.Line]
-			if !ok {
-				unsupported("%s at line %d: header must end with '{'", s.IOKw, s.Line)
+		cl, ok := lw.p.closer[s.Line]
+		if !ok {
+			unsupported("%s at line %d: header must end with '{'", s.IOKw, s.Line)
+		}
+		s.BodyEnd = cl
+		s.BodyTerm = a.Terminates(m.Body())
+	case a.KIterate:
+		it := n.AsIterate()
+		s.K = SIterate
+		if it.HasBreak() || it.HasContinue() {
+			unsupported("break / continue targeting the iterate at line %d", s.Line)
+		}
+		for _, o := range it.Assigns() {
+			as := o.AsAssign()
+			lhs := lw.expr(as.LHS())
+			if lhs.Op != OLocal {
+				unsupported("iterate variable at line %d is not a local", s.Line)
 			}
-			s.BodyEnd = cl
-			s.BodyTerm = a.Terminates(m.Body())
+			rhs := lw.expr(as.RHS())
+			markStmtPos(rhs)
+			s.IterVars = append(s.IterVars, lhs)
+			s.IterSrcs = append(s.IterSrcs, rhs)
+		}
+		opener := s.Line
+		for cur := it; cur != nil; cur = cur.ElseIterate() {
+			rd := &IterRound{}
+			fmt.Sscan(lw.tm.ByID(cur.Length()), &rd.Length)
+			fmt.Sscan(lw.tm.ByID(cur.Advance()), &rd.Advance)
+			fmt.Sscan(lw.tm.ByID(cur.Unroll()), &rd.Unroll)
+			if rd.Length < 1 || rd.Advance < 1 || rd.Advance > rd.Length {
+				unsupported("iterate round at line %d: bad length / advance", opener)
+			}
+			rd.Body = lw.block(cur.Body())
+			cl, ok := lw.p.closer[opener]
+			if !ok {
+				unsupported("iterate at line %d: header must end with '{'", opener)
+			}
+			rd.BodyEnd, rd.BodyTerm = cl, a.Terminates(cur.Body())
+			s.Rounds = append(s.Rounds, rd)
+			opener = cl // "} else (length: ..) {" sits on the closer line
 		}
 	case a.KChoose:
 		c := n.AsChoose()
